@@ -252,6 +252,7 @@ func c04(c *Ctx) {
 	c.checkLengthIsSum()
 	c.checkChildlessDispatch("R4.10")
 	c.checkFastForward()
+	c.checkNoFabricatedSize("R4.12")
 }
 
 func (c *Ctx) fieldOfAddr(fn *ssa.Function, addr ssa.Value) *types.Var {
